@@ -16,7 +16,7 @@ def main() -> int:
     for i in range(20):
         seed = rng.sub_seed(1, f'selfcheck/{i}')
         for scen, (gen, _run) in mod.SCENARIOS.items():
-            case = gen(rng.derive(seed, 'gen'), 'quick', seed)
+            case = gen(rng.derive(seed, 'gen'), 'quick', seed, i) if getattr(gen, 'wants_index', False) else gen(rng.derive(seed, 'gen'), 'quick', seed)
             case['scenario'] = scen
             case['seed'] = seed
             case = runner.normalise(case)
